@@ -17,6 +17,10 @@ import (
 	"github.com/ChainSafe/sygma-relayer/config/relayer"
 	"github.com/ChainSafe/sygma-relayer/tss"
 	"github.com/ChainSafe/sygma-relayer/tss/ecdsa/common"
+	ecdsaKeygen "github.com/ChainSafe/sygma-relayer/tss/ecdsa/keygen"
+	ecdsaResharing "github.com/ChainSafe/sygma-relayer/tss/ecdsa/resharing"
+	frostKeygen "github.com/ChainSafe/sygma-relayer/tss/frost/keygen"
+	frostResharing "github.com/ChainSafe/sygma-relayer/tss/frost/resharing"
 	"github.com/ChainSafe/sygma-relayer/tss/message"
 	tsslib "github.com/binance-chain/tss-lib/tss"
 	"github.com/libp2p/go-libp2p/core/peer"
@@ -307,7 +311,9 @@ func (e *c11Env) second(done <-chan struct{}, cancel func(), responder string, a
 	cm := e.cm
 	note := ""
 	quiet := strings.HasPrefix(responder, "~") // nothing is heard for 3×CoordinatorTimeout before the claimant speaks
-	responder = strings.TrimPrefix(responder, "~")
+	hat := strings.HasPrefix(responder, "^")   // the claimant only keeps initiating, never starts: until TssTimeout has passed
+	responder = strings.TrimLeft(responder, "~^")
+	nReady := 0
 	nInit := func() int {
 		n := 0
 		for _, b := range cm.casts[castMark:] {
@@ -349,6 +355,7 @@ func (e *c11Env) second(done <-chan struct{}, cancel func(), responder string, a
 				note += ";ready-" + r
 				break
 			}
+			nReady++
 		}
 		if e.realRuns > 0 && !entered {
 			// a REAL Run must not be entered while the session is being cancelled (its first round would block for ever on
@@ -364,7 +371,26 @@ func (e *c11Env) second(done <-chan struct{}, cancel func(), responder string, a
 			case <-done:
 			}
 		}
-		if responder != "-" {
+		if hat && !bully && responder != "-" {
+			// the claimant initiates again and again (each initiate re-arms waitForStart's ticker) and never starts; the
+			// session must end on its own when TssTimeout (shrunk, see c11HatTimeout) has passed since handleError began
+			from := c07Peer(responder)
+			for {
+				if r := cm.deliver(e.sid, comm.TssInitiateMsg, from, []byte{}, done); r != "ok" {
+					break
+				}
+				select {
+				case <-done:
+				case <-time.After(c11HatTimeout() / 5):
+				}
+			}
+			if !c07WaitDone(done) {
+				return "hang"
+			}
+			if len(cm.castsOf(comm.TssReadyMsg)) == 0 { // TssTimeout passed before the first initiate could be handed over
+				c07Anomaly()
+			}
+		} else if responder != "-" {
 			stop := e.stopOn(done)
 			from := c07Peer(responder)
 			params := []byte("p1")
@@ -453,7 +479,16 @@ func (e *c11Env) second(done <-chan struct{}, cancel func(), responder string, a
 			}
 		}
 	}
-	return "sel=" + sel + ";r=" + joinOr(rs, ",") + ";start=" + start + ";run=" + joinOr(runs, "/") + ";res=" + c11ErrClass(*rerr) + note
+	if hat { // how often the claimant was answered depends on the pacing: the set of targets does not
+		uniq := []string{}
+		for _, r := range rs {
+			if !c07Contains(uniq, r) {
+				uniq = append(uniq, r)
+			}
+		}
+		rs = uniq
+	}
+	return "sel=" + sel + ";r=" + joinOr(rs, ",") + ";n=" + itoa(nReady) + ";start=" + start + ";run=" + joinOr(runs, "/") + ";res=" + c11ErrClass(*rerr) + note
 }
 
 // c11ErrClass: the typed cause found in a returned error (errors.As), `other` for any untyped error, `ok` for nil.
@@ -468,6 +503,9 @@ func c11ErrClass(err error) string {
 
 // c11SilentTimeout: the CoordinatorTimeout of the first attempt when the static coordinator stays silent
 const c11SilentTimeout = 30 * time.Millisecond
+
+// c11HatTimeout: the TssTimeout of the `^` scenarios (stretched 5× / 25× on the re-runs of a discarded case)
+func c11HatTimeout() time.Duration { return 150 * time.Millisecond * c07Scale() }
 
 // c11ShortTimeout: the CoordinatorTimeout of the `~` scenarios (TssTimeout stays at one hour)
 const c11ShortTimeout = 40 * time.Millisecond
@@ -513,6 +551,9 @@ func (e *c11Env) prepareFirst(first, claimantArg string, c peer.ID, later func(c
 		if i == 0 && strings.HasPrefix(claimantArg, "~") { // the first attempt's own wait keeps its one-hour ticker
 			e.short = true
 			e.co.CoordinatorTimeout = c11ShortTimeout
+		}
+		if i == 0 && strings.HasPrefix(claimantArg, "^") { // (the first attempt's watcher keeps its one-hour ticker)
+			e.co.TssTimeout = c11HatTimeout()
 		}
 		if i == 0 && !f.silent && !f.withFail {
 			setMarks()
@@ -619,6 +660,27 @@ func (f *c11First) drive(done <-chan struct{}, t int) (run1 string, runMark int,
 	return run1, runMark, note
 }
 
+// c11RealProcess builds one of the six tss processes with the repository's own constructor.
+func c11RealProcess(kind string, self peer.ID, t int, sid string, holders []peer.ID) tss.TssProcess {
+	h := c07NewHost(self, holders)
+	cm := c07NewComm()
+	switch kind {
+	case "ecdsa-keygen":
+		return ecdsaKeygen.NewKeygen(sid, t, h, cm, &c07ECDSAFetcher{holders, t})
+	case "ecdsa-resharing":
+		return ecdsaResharing.NewResharing(sid, t, h, cm, &c07ECDSAFetcher{holders, t})
+	case "frost-keygen":
+		return frostKeygen.NewKeygen(sid, t, h, cm, &c07FrostFetcher{holders, t})
+	case "frost-resharing":
+		return frostResharing.NewResharing(sid, 1, h, cm, &c07FrostFetcher{holders, 1})
+	case "ecdsa-signing":
+		return c07Signing("ecdsa", sid, h, cm, holders, t).(tss.TssProcess)
+	case "frost-signing":
+		return c07Signing("frost", sid, h, cm, holders, t).(tss.TssProcess)
+	}
+	panic("bad process kind " + kind)
+}
+
 func c11Nil(context.Context) error { return nil }
 
 func c11Await(ch <-chan struct{}) {
@@ -630,6 +692,13 @@ func c11Await(ch <-chan struct{}) {
 }
 
 func init() {
+	// retryable <kind> => 1|0: what the repository's own process object (built by its own constructor) answers
+	ops["C11.retryable"] = func(a []string) string {
+		if c11RealProcess(a[0], c07Peers[0], 1, "s", c07Peers[:3]).Retryable() {
+			return "1"
+		}
+		return "0"
+	}
 	// pool <spec> => Join structure of what real (nested) conc pools return
 	ops["C11.pool"] = func(a []string) string { return c11Shape(c11Build(a[0], c07Peers[0])) }
 	// handle <self> <t> <sid> <holders> <errspec> <claimant|-> <arrivals>
@@ -643,10 +712,13 @@ func init() {
 		t := int(u64(a[1]))
 		sid := c07Sid(a[2])
 		holders := c07PeerList(a[3])
-		e := c11NewEnv(self, t, sid, holders, true, a[5] != "-" && !strings.HasPrefix(a[5], "~"))
+		e := c11NewEnv(self, t, sid, holders, true, a[5] != "-" && !strings.HasPrefix(a[5], "~") && !strings.HasPrefix(a[5], "^"))
 		if strings.HasPrefix(a[5], "~") {
 			e.short = true
 			e.co.CoordinatorTimeout = c11ShortTimeout
+		}
+		if strings.HasPrefix(a[5], "^") {
+			e.co.TssTimeout = c11HatTimeout()
 		}
 		e.proc.outcomes = []func(context.Context) error{c11Nil, c11Nil}
 		err := c11Build(a[4], self)
@@ -672,7 +744,11 @@ func init() {
 		t := int(u64(a[1]))
 		sid := c07Sid(a[2])
 		holders := c07PeerList(a[3])
-		e := c11NewEnv(self, t, sid, holders, a[4] == "1", a[6] != "-" && !strings.HasPrefix(a[6], "~"))
+		retryable := a[4] == "1"
+		if len(a[4]) > 1 { // a process kind: ask the REAL process object
+			retryable = c11RealProcess(a[4], self, t, sid, holders).Retryable()
+		}
+		e := c11NewEnv(self, t, sid, holders, retryable, a[6] != "-" && !strings.HasPrefix(a[6], "~") && !strings.HasPrefix(a[6], "^"))
 		ord := c07Order(holders, sid)
 		if len(ord) == 0 {
 			return "noholders"
@@ -709,6 +785,24 @@ func c11Shapes(k string) []string {
 
 func genC11(g *G) {
 	defer genC11Real(g)
+	// what the six real process objects answer to Retryable(), and a failing first attempt of each through the real Execute
+	kinds := []string{"ecdsa-keygen", "ecdsa-signing", "ecdsa-resharing", "frost-keygen", "frost-signing", "frost-resharing"}
+	for i, k := range kinds {
+		g.Emit("retryable", k)
+		for j, f := range []string{"t3", "c2", "m", "s", "o", "silent"} {
+			if !g.Thorough() && (i+j)%3 != 0 {
+				continue
+			}
+			g.Emit("exec", []string{"0", "1"}[j%2], "1", hx([]byte("m1")), "0,1,2,3", k, f, "-", "3,1,0,2")
+		}
+	}
+	// left out, and the replacement coordinator only keeps initiating: the wait ends when TssTimeout has passed in total
+	for i := 0; i < g.Count(2, 12); i++ {
+		g.Emit("handle", "0", "1", hx([]byte("m1")), "0,1,2,3", c11Shapes("s")[i%5], "^"+itoa(1+i%3), "1,2,3")
+		if i%2 == 0 {
+			g.Emit("exec", []string{"0", "1"}[(i/2)%2], "1", hx([]byte("m1")), "0,1,2,3", "1", "s", "^3", "1,2,3")
+		}
+	}
 	// ---- conc aggregation: every pool of ≤ 3 tasks over the leaf classes, and two-level nestings
 	leaves := []string{"o", "n", "t3", "c2", "s", "m"}
 	// what the repository's transport adapter itself returns for every point at which sending to a peer can break
